@@ -61,6 +61,16 @@ theorem C10_denotation (st : ListenerState) (h : GoodState st) :
       (∀ i j : Nat, g.Adj i j ↔ ((i : Int), (j : Int)) ∈ st.bonds ∨ ((j : Int), (i : Int)) ∈ st.bonds) :=
   toGraph_spec st h
 
+/-- **"numbered by increasing atomic number"**: the arrangement `C10_denotation` speaks of (`sortAtomsByZ`) is a
+rearrangement of the formula's atoms in which the atomic number never decreases -/
+theorem C10_atoms_by_increasing_Z (l : List Atom) :
+    (sortAtomsByZ l).Perm l ∧ (sortAtomsByZ l).Pairwise (fun a b => a.z.getD 0 ≤ b.z.getD 0) := by
+  refine ⟨List.mergeSort_perm l _, ?_⟩
+  have := List.pairwise_mergeSort (le := fun (a b : Atom) => decide (a.z.getD 0 ≤ b.z.getD 0))
+    (fun a b c hab hbc => by simp only [decide_eq_true_eq] at *; omega)
+    (fun a b => by simp only [Bool.or_eq_true, decide_eq_true_eq]; omega) l
+  simpa [sortAtomsByZ] using this
+
 /-- the element table the parser numbers atoms by is the periodic table (regenerated from the working
 tree and compared with an independently written table of the 118 IUPAC symbols) -/
 theorem C10_element_table : Tables.elementTable = periodicTable := elementTable_is_periodicTable
